@@ -35,9 +35,12 @@ RULE = ("round trip = one detector (type, random valid geometry/environment/char
         "at a chosen group/position; non-trivial when the state before the load differs from the file's")
 ASSUMPTIONS = [
     "container contents are produced through the public container API (array setters, add_charge, add_source, "
-    "detector.data[...] = DataArray); NaN is not put into the 2-D buckets (the library == is a secondary witness)",
+    "detector.data[...] = DataArray / DataTree, node.coords[...] / node.attrs[...] of detector.data); NaN is not put into the 2-D buckets (the library == is a secondary witness)",
     "containers that travel as nested lists (3-D photon, scene, processed data) may come back in a wider dtype of "
     "the same kind with identical values: recorded as a normalisation, not alarmed; ndarray buckets must keep dtype",
+    "processed data: groups with data variables, groups holding only coordinates (inherited by sub-groups or not) "
+    "and/or only attributes (root included), empty intermediate groups; a coordinate held by a group that an "
+    "ancestor defines identically is compared as inherited",
     "cluster table: column names, column order, row count and numeric values are compared; column dtypes and the "
     "row index are recorded only",
     "HDF5 is driven only when h5py imports (recorded as skipped otherwise)",
@@ -206,7 +209,37 @@ def rand_containers(rng, kind, chosen, has_pixel_size, force_image=False, no_clu
                               "coords": rng.random() < 0.5, "attrs": rng.random() < 0.5, "nan": rng.random() < 0.3,
                               "tag": j})
             cs[name] = {"nodes": nodes, "seed": seed}
+            groups = rand_bare_groups(seed, paths)
+            if groups:
+                cs[name]["groups"] = groups
     return cs
+
+
+BARE_PATHS = ("/", "/statistics", "/regions", "/regions/inner", "/obs", "/obs/partial", "/readout/times", "/snr",
+              "/mean_variance", "/axes")
+
+
+def rand_bare_groups(seed, var_paths):
+    """Groups of the processed-data tree that hold NO data variable: only coordinates (an axis defined once
+    and inherited by the sub-groups, or a leaf that only defines an axis) and/or only attributes (root included).
+    Drawn from a generator of their own (derived from the container seed) so that the other draws of a case do
+    not depend on this class."""
+    import random
+    r = random.Random(int(seed) * 2654435761 % (2 ** 32) + 17)
+    if r.random() < 0.45:
+        return []
+    free = [p for p in BARE_PATHS if p not in var_paths]
+    out = []
+    for k, path in enumerate(r.sample(free, r.randint(1, 3))):
+        what = r.choice(["coords", "coords", "coords+attrs", "attrs"])
+        g = {"path": path, "what": what, "how": r.choice(["assign", "setter"]), "tag": 50 + k}
+        if what != "attrs":
+            g.update({"ncoord": r.randint(1, 2), "sa": r.randint(1, 4), "sb": r.randint(1, 3),
+                      "float_axis": r.random() < 0.5, "coord_attrs": r.random() < 0.4,
+                      # sub-groups whose variables live on the axes defined by this group (inherited coordinates)
+                      "children": r.choice([0, 0, 1, 2]) if path != "/" else r.choice([0, 1])})
+        out.append(g)
+    return out
 
 
 def variants_sig(cs):
@@ -215,7 +248,7 @@ def variants_sig(cs):
         if c is None:
             continue
         out.append((name, c.get("nd"), c.get("mode"), c.get("dtype"), c.get("n"), c.get("zeros"),
-                    len(c.get("nodes", []))))
+                    len(c.get("nodes", [])), sorted(g["what"] for g in c.get("groups", []))))
     return out
 
 
@@ -373,6 +406,50 @@ def apply_containers(det, cs):
                     det.data[f"{prefix}/var{v}"] = arr
                 if node["attrs"] and node["path"] != "/":
                     det.data[node["path"]].attrs["note"] = f"node {t}"
+            apply_bare_groups(det.data, c.get("groups", []), seed)
+
+
+def apply_bare_groups(tree, groups, seed):
+    """Add the groups without data variable (see rand_bare_groups) through xarray's public DataTree API."""
+    import xarray as xr
+    g = _gen(seed, 9)
+    for grp in sorted(groups, key=lambda q: (q["path"].count("/") if q["path"] != "/" else 0, q["path"])):
+        path, t = grp["path"], grp["tag"]
+        da, db = f"g{seed % 9973}_{t}_a", f"g{seed % 9973}_{t}_b"
+        coords, attrs = {}, {}
+        if grp["what"] != "attrs":
+            sa, sb = grp["sa"], grp["sb"]
+            axis = (np.arange(sa) * 0.25 + float(g.random())) if grp["float_axis"] else np.arange(sa) + int(g.integers(0, 50))
+            coords[da] = xr.Variable((da,), axis, attrs={"units": "um"} if grp["coord_attrs"] else {})
+            if grp["ncoord"] == 2:
+                coords[db] = xr.Variable((db,), np.arange(sb) * 2 + 1)
+        if grp["what"] != "coords":
+            attrs = {"description": f"group {t}", "level": int(t), "factor": 1.5}
+        if path == "/":
+            node, exists = tree, True
+        else:
+            try:
+                node, exists = tree[path], True
+                if not isinstance(node, xr.DataTree):
+                    raise KeyError(path)
+            except KeyError:
+                node, exists = None, False
+        if not exists and grp["how"] == "assign":
+            tree[path] = xr.DataTree(xr.Dataset(coords=coords, attrs=attrs))
+        else:
+            if not exists:
+                tree[path] = xr.DataTree()
+            node = tree if path == "/" else tree[path]
+            for key, var in coords.items():
+                node.coords[key] = var
+            node.attrs.update(attrs)
+        prefix = "" if path == "/" else path
+        for k in range(grp.get("children", 0)):
+            dims = [da, db] if (grp["ncoord"] == 2 and (k or g.random() < 0.5)) else [da]
+            shape = tuple(grp["sa"] if d == da else grp["sb"] for d in dims)
+            tree[f"{prefix}/sub{k}/mask"] = xr.DataArray(g.random(shape) * 10.0 - 2.0, dims=dims)
+            if g.random() < 0.5:
+                tree[f"{prefix}/sub{k}/count"] = xr.DataArray(g.integers(0, 1000, size=shape[:1]), dims=dims[:1])
 
 
 # ====================================================================== extraction (public API only)
@@ -425,7 +502,28 @@ def plain_tree(tree):
         out[path] = {"vars": {str(k): plain_var(v) for k, v in ds.data_vars.items()},
                      "coords": {str(k): plain_var(v) for k, v in ds.coords.items()},
                      "attrs": _norm(dict(ds.attrs))}
+    # A coordinate that a group holds itself although an ancestor group (inside this tree) defines the very same
+    # coordinate is the same tree as the one where the group inherits it (xarray removes such duplicates whenever
+    # a tree is built, but keeps them e.g. after node.coords[...] = ...): normal form = inherited.
+    for path in sorted(out, key=len, reverse=True):
+        if path == "/":
+            continue
+        parts = path.strip("/").split("/")
+        ancestors = ["/"] + ["/" + "/".join(parts[:k]) for k in range(1, len(parts))]
+        for name in list(out[path]["coords"]):
+            mine = out[path]["coords"][name]
+            for anc in ancestors:
+                theirs = out.get(anc, {"coords": {}})["coords"].get(name)
+                if theirs is not None and same_plain_var(mine, theirs):
+                    del out[path]["coords"][name]
+                    break
     return out
+
+
+def same_plain_var(a, b):
+    va, vb = a["values"], b["values"]
+    return (a["dims"] == b["dims"] and a["attrs"] == b["attrs"] and va.dtype == vb.dtype and va.shape == vb.shape
+            and bool(np.array_equal(va, vb, equal_nan=va.dtype.kind == "f")))
 
 
 def bucket_array(obj):
@@ -832,6 +930,13 @@ def roundtrip_case(rec, ctx, i, spec):
         if c is not None:
             variant = c.get("mode") or (f"{c['nd']}d" if "nd" in c else c.get("dtype", ""))
             rec.observe("initialised", f"{kind}:{name}:{variant}")
+    for grp in (cs.get("data") or {}).get("groups", []):
+        role = "root" if grp["path"] == "/" else ("shared-by-subgroups" if grp.get("children") else "plain")
+        for what in grp["what"].split("+"):
+            rec.observe("groups_without_variable", f"{what}:{role}")
+        if role == "root":
+            rec.observe("groups_without_variable", "any:root")
+        rec.count("groups_without_variable_round_tripped")
     if setters:
         rec.count("roundtrips_with_setters")
     rec.case(sig, nontrivial, sample=case)
@@ -868,6 +973,10 @@ def check_trace_snapshot(rec, ev, state, mech, case, index):
     for name in ("scene", "data"):      # DataTree.is_empty looks at the root node only
         root = state[name]["/"]
         root_empty = not (root["vars"] or root["coords"] or root["attrs"])
+        if root["coords"] and not (root["vars"] or root["attrs"]):
+            # whether a root holding nothing but coordinates counts as 'empty' is xarray's business
+            rec.count("root_emptiness_ambiguous")
+            continue
         if snap[name + "_empty"] is not root_empty:
             d.add(name, "root-emptiness", f"probe saw {name}_empty={snap[name + '_empty']}, file's root empty={root_empty}")
     report(rec, d, f"{mech}:trace-after-load", case, index, detail_prefix=f"probe '{ev['model']}' step {ev['step']}: ")
@@ -1237,6 +1346,10 @@ def finalize(counters, sets, tier):
     have = {":".join(s.split(":")[:2]) for s in sets.get("initialised", [])}
     if want - have:
         out.append(f"containers never initialised in a round trip: {sorted(want - have)}")
+    bare = set(sets.get("groups_without_variable", []))
+    need_bare = {"coords:plain", "coords:shared-by-subgroups", "attrs:plain", "any:root"}
+    if need_bare - bare:
+        out.append(f"processed-data groups without data variable never round-tripped: {sorted(need_bare - bare)}")
     variants = {f"{k}:{v}" for k in KINDS for v in ("photon:2d", "photon:3d", "charge:array", "charge:clusters")}
     if variants - set(sets.get("initialised", [])):
         out.append(f"container variants never round-tripped: {sorted(variants - set(sets.get('initialised', [])))}")
